@@ -13,11 +13,119 @@ pub fn parse(bytes: &[u8]) -> Ran<Result<Vec<(String, Vec<String>)>, String>> {
     guarded(budget, move || n2::verif::parse_depfile(&b, "x.d"))
 }
 
+
+/// Reference reading of a depfile, written from the Makefile-subset grammar of the property:
+///   file  := (blank | entry)*          blank := spaces and newlines
+///   entry := target ' '* ':' (ws+ prereq)* ws* (newline | EOF)      ws := ' ' | backslash-newline
+///   target, prereq := maximal runs of characters other than space and newline, not starting with a backslash
+///                     and ending before a backslash-newline; a target written `name:` carries its colon.
+/// Returns None for anything outside this grammar (then only totality is required of n2).
+pub fn reference_depfile(b: &[u8]) -> Option<Vec<(String, Vec<String>)>> {
+    let mut i = 0;
+    let n = b.len();
+    let cont = |i: usize| i + 1 < n && b[i] == b'\\' && b[i + 1] == b'\n';
+    let mut entries: Vec<(String, Vec<String>)> = vec![];
+    // a token starting at i: (end, text); None if empty or starting with a stray backslash
+    let token = |mut i: usize| -> Option<(usize, String)> {
+        let start = i;
+        if i < n && b[i] == b'\\' {
+            return None;
+        }
+        while i < n && b[i] != b' ' && b[i] != b'\n' && b[i] != 0 && !cont(i) {
+            i += 1;
+        }
+        if i == start {
+            None
+        } else {
+            Some((i, String::from_utf8_lossy(&b[start..i]).into_owned()))
+        }
+    };
+    loop {
+        // blank space between entries
+        loop {
+            if i < n && (b[i] == b' ' || b[i] == b'\n') {
+                i += 1;
+            } else if cont(i) {
+                // a continuation outside an entry: not something the grammar of the property covers
+                return None;
+            } else {
+                break;
+            }
+        }
+        if i >= n {
+            break;
+        }
+        if b[i] == 0 {
+            return None;
+        }
+        let (e, mut target) = token(i)?;
+        i = e;
+        if let Some(t) = target.strip_suffix(':') {
+            target = t.to_string();
+        } else {
+            while i < n && b[i] == b' ' {
+                i += 1;
+            }
+            if i < n && b[i] == b':' {
+                i += 1;
+            } else {
+                return None;
+            }
+            // the colon must stand alone (followed by ws, newline or EOF): `a :b` reads as prerequisite `b`? keep to the clear case
+            if i < n && b[i] != b' ' && b[i] != b'\n' && !cont(i) {
+                return None;
+            }
+        }
+        let mut deps = vec![];
+        loop {
+            let mut ws = 0;
+            loop {
+                if i < n && b[i] == b' ' {
+                    i += 1;
+                    ws += 1;
+                } else if cont(i) {
+                    i += 2;
+                    ws += 1;
+                } else {
+                    break;
+                }
+            }
+            if i >= n || b[i] == b'\n' {
+                break;
+            }
+            if b[i] == 0 {
+                return None;
+            }
+            if ws == 0 {
+                return None;
+            }
+            let (e, t) = token(i)?;
+            i = e;
+            deps.push(t);
+        }
+        match entries.iter_mut().find(|x| x.0 == target) {
+            Some(x) => x.1.extend(deps),
+            None => entries.push((target, deps)),
+        }
+    }
+    Some(entries)
+}
+
 pub fn totality_one(bytes: &[u8]) -> Result<bool, (String, String)> {
     match parse(bytes) {
         Ran::Panic(m, f) => Err((util::panic_key(&m, &f), format!("parsing depfile {:?} panicked: {}", String::from_utf8_lossy(bytes), m))),
-        Ran::Done(Ok(_)) => Ok(true),
+        Ran::Done(Ok(got)) => {
+            if let Some(want) = reference_depfile(bytes) {
+                if got != want {
+                    return Err(("differs-from-reference".into(), format!("depfile {:?}: read as {:?}, the grammar of the property gives {:?}", String::from_utf8_lossy(bytes), got, want)));
+                }
+            }
+            Ok(true)
+        }
         Ran::Done(Err(e)) => {
+            if let Some(want) = reference_depfile(bytes) {
+                return Err(("well-formed-rejected".into(), format!("depfile {:?} is well-formed ({:?}) but was rejected: {:?}", String::from_utf8_lossy(bytes), want, e)));
+            }
             let e = String::from_utf8_lossy(e.as_bytes()).into_owned();
             let nl = bytes.iter().filter(|&&c| c == b'\n').count() + 1;
             match check_parse_error_shape_x(&e, "x.d", nl, std::str::from_utf8(bytes).is_ok()) {
@@ -58,7 +166,13 @@ impl C15 {
                     1 => " ".repeat(2 + t.below(2)),
                     _ => {
                         classes.push(if first { "continuation-after-colon".into() } else { "continuation".into() });
-                        format!("{}\\\n{}", " ".repeat(t.below(2)), " ".repeat(t.below(4)))
+                        if t.chance(20) {
+                            // an empty continuation line
+                            classes.push("empty-continuation-line".into());
+                            format!("{}\\\n{}\\\n{}", " ".repeat(t.below(2)), " ".repeat(t.below(3)), " ".repeat(t.below(4)))
+                        } else {
+                            format!("{}\\\n{}", " ".repeat(t.below(2)), " ".repeat(t.below(4)))
+                        }
                     }
                 };
                 // directly after the colon a separator is needed only if the target name ends the token
